@@ -26,8 +26,11 @@ import (
 	"bytes"
 	"fmt"
 	"go/ast"
+	"go/parser"
 	"go/printer"
 	"go/token"
+	"os"
+	"path/filepath"
 	"sort"
 	"strings"
 )
@@ -227,4 +230,151 @@ func inventoryLean(prefix string, keys []string) string {
 	}
 	sb.WriteString("]\n")
 	return sb.String()
+}
+
+// Swallow inventory (C19): the places of a package where the result of a call
+// is thrown away or an error is tested and then dropped.  Syntactic (go/ast):
+//
+//	discard:<stmt>   an assignment whose right-hand side is ONE call and whose last
+//	                 left-hand side is the blank identifier ("x, _ := f()", "_ = f()"):
+//	                 the last result of a Go function is by convention its error
+//	errnil:<header>  an if statement without else whose condition requires "err == nil":
+//	                 whatever the error was, the code goes on without the value
+//	errdrop:<stmt>   an if statement whose condition tests "err != nil" (possibly
+//	                 among other operands) and whose body neither mentions err nor
+//	                 panics: continue / break / return of other values / assignments
+//
+// Key: "<file>:<function>:<kind>:<normalised text>", "#2", … for repetitions.  Files
+// whose name starts with "verif_" (hooks for this framework) and tests are left out.
+func swallowInventory(repo string, dirs []string) []string {
+	var keys []string
+	for _, dir := range dirs {
+		ents, err := os.ReadDir(filepath.Join(repo, dir))
+		if err != nil {
+			fail("swallow inventory: %v", err)
+		}
+		for _, ent := range ents {
+			n := ent.Name()
+			if ent.IsDir() || !strings.HasSuffix(n, ".go") || strings.HasSuffix(n, "_test.go") || strings.HasPrefix(n, "verif_") {
+				continue
+			}
+			fset := token.NewFileSet()
+			f, err := parser.ParseFile(fset, filepath.Join(repo, dir, n), nil, parser.SkipObjectResolution)
+			if err != nil {
+				fail("swallow inventory: %v", err)
+			}
+			rel := filepath.ToSlash(filepath.Join(dir, n))
+			for _, d := range f.Decls {
+				fd, ok := d.(*ast.FuncDecl)
+				if !ok || fd.Body == nil {
+					continue
+				}
+				name := fd.Name.Name
+				if fd.Recv != nil && len(fd.Recv.List) == 1 {
+					name = recvName(fd.Recv.List[0].Type) + "." + name
+				}
+				seen := map[string]int{}
+				add := func(kind, text string) {
+					k := fmt.Sprintf("%s:%s:%s:%s", rel, name, kind, text)
+					seen[k]++
+					if seen[k] > 1 {
+						k = fmt.Sprintf("%s#%d", k, seen[k])
+					}
+					keys = append(keys, k)
+				}
+				ast.Inspect(fd.Body, func(n ast.Node) bool {
+					switch x := n.(type) {
+					case *ast.AssignStmt:
+						if len(x.Rhs) == 1 && len(x.Lhs) >= 1 {
+							if _, isCall := x.Rhs[0].(*ast.CallExpr); isCall {
+								if id, ok := x.Lhs[len(x.Lhs)-1].(*ast.Ident); ok && id.Name == "_" {
+									add("discard", nodeText(fset, x))
+								}
+							}
+						}
+					case *ast.IfStmt:
+						if mentionsErrNotNil(x.Cond) && !mentionsIdent(x.Body, "err") && !callsPanic(x.Body) {
+							add("errdrop", "if "+nodeText(fset, x.Cond)+" { "+bodyText(fset, x.Body)+" }")
+						}
+						if x.Else == nil && mentionsErrIsNil(x.Cond) {
+							hdr := "if "
+							if x.Init != nil {
+								hdr += nodeText(fset, x.Init) + "; "
+							}
+							add("errnil", hdr+nodeText(fset, x.Cond))
+						}
+					}
+					return true
+				})
+			}
+		}
+	}
+	sort.Strings(keys)
+	return keys
+}
+
+func bodyText(fset *token.FileSet, b *ast.BlockStmt) string {
+	var parts []string
+	for _, s := range b.List {
+		parts = append(parts, nodeText(fset, s))
+	}
+	t := strings.Join(parts, "; ")
+	if len(t) > 160 {
+		t = t[:160] + "…"
+	}
+	return t
+}
+
+func mentionsErrNotNil(e ast.Expr) bool {
+	found := false
+	ast.Inspect(e, func(n ast.Node) bool {
+		if be, ok := n.(*ast.BinaryExpr); ok && be.Op == token.NEQ {
+			if id, ok := be.X.(*ast.Ident); ok && (id.Name == "err" || strings.HasSuffix(id.Name, "Err") || strings.HasPrefix(id.Name, "err")) {
+				if y, ok := be.Y.(*ast.Ident); ok && y.Name == "nil" {
+					found = true
+				}
+			}
+		}
+		return true
+	})
+	return found
+}
+
+func mentionsErrIsNil(e ast.Expr) bool {
+	found := false
+	ast.Inspect(e, func(n ast.Node) bool {
+		if be, ok := n.(*ast.BinaryExpr); ok && be.Op == token.EQL {
+			if id, ok := be.X.(*ast.Ident); ok && id.Name == "err" {
+				if y, ok := be.Y.(*ast.Ident); ok && y.Name == "nil" {
+					found = true
+				}
+			}
+		}
+		return true
+	})
+	return found
+}
+
+func mentionsIdent(n ast.Node, name string) bool {
+	found := false
+	ast.Inspect(n, func(n ast.Node) bool {
+		if id, ok := n.(*ast.Ident); ok && (id.Name == name || strings.HasSuffix(id.Name, "Err") || (strings.HasPrefix(id.Name, "err") && id.Name != "errors")) {
+			found = true
+		}
+		return true
+	})
+	return found
+}
+
+func callsPanic(n ast.Node) bool {
+	found := false
+	ast.Inspect(n, func(n ast.Node) bool {
+		if c, ok := n.(*ast.CallExpr); ok {
+			if id, ok := c.Fun.(*ast.Ident); ok && id.Name == "panic" {
+				found = true
+			}
+		}
+		return true
+	})
+	return found
 }
